@@ -34,7 +34,7 @@ def one(*fns):
     return [(f, None) for f in fns]
 
 
-SK_LOOP = both(sk.rule_sk_parse, sk.rule_sk_eof, sk.rule_sk_nr, sk.rule_sk_nf, sk.rule_sk_vars, sk.rule_sk_where)
+SK_LOOP = both(sk.rule_sk_mainrun, sk.rule_sk_parse, sk.rule_sk_eof, sk.rule_sk_nr, sk.rule_sk_nf, sk.rule_sk_vars, sk.rule_sk_where)
 SK_SELECT = both(sk.rule_sk_emit, sk.rule_sk_unnest, sk.rule_sk_unnest_pos, sk.rule_sk_join, sk.rule_sk_paren, sk.rule_sk_relay)
 SK_UPDATE = both(sk.rule_sk_copy, sk.rule_sk_upd, sk.rule_sk_nu, sk.rule_sk_paren)
 SK_ALL = SK_LOOP + SK_SELECT + SK_UPDATE + both(sk.rule_sk_stop, sk.rule_sk_err, sk.rule_sk_alias) + py(sk.rule_sk_scope)
@@ -88,7 +88,7 @@ PROPS = {
         'not_decided': 'floating-point rounding of the accumulators and the order of additions (AG-FOLD decides the fold expressions up to algebraic identity over the rationals, AG-MEDIAN the even/odd selection; bit-exact results are statements about runtime values).',
     },
     'C04': {
-        'rules': JN_ALL + both(sk.rule_sk_join, sk.rule_sk_vars, sk.rule_sk_unnest, pa.rule_pa_groups, hd.rule_va_index) + both(sk.rule_sk_stop, sk.rule_sk_copy),
+        'rules': JN_ALL + both(sk.rule_sk_join, sk.rule_sk_vars, sk.rule_sk_unnest, pa.rule_pa_groups, hd.rule_va_index) + both(sk.rule_sk_stop, sk.rule_sk_copy, sk.rule_sk_mainrun),
         'thorough_rules': both(sk.rule_sk_where, sk.rule_sk_emit, sk.rule_sk_unnest, sk.rule_sk_upd, sk.rule_sk_err) + one(xp.rule_xp_keywords, xp.rule_rx_xp),
         'explanation': 'Decides join pairing structure: longest join keyword wins, keyword -> joiner table total and name-consistent, B map appended in read order with 1-based bNR and (bNR, bNF, record) triples, build() before joiner construction, LEFT null record of max_record_len Nones, STRICT != 1 raises, A-side and B-side key representations switch on the same condition, ON accepts = and == in either operand order, NR keys -> index -1; in the generated program each A record is paired with get_rhs(key) matches in order and the whole select block (variables, WHERE, SELECT, sort/group key) is inside the match loop; UPDATE JOIN: >1 raises, 1 binds, 0 binds Nones and skips assignments. The ON-pair resolution is checked against a table of ways to write a pair (either order, record-number keys on either side) on path summaries; the B-side key functions are evaluated on the index classes {-1, inside, outside the record}; the JS join table is a Map; the stop flag of the main loop starts out False.',
         'not_decided': 'equality of key values (hashing of user data) - trusted to dict/Map semantics.',
